@@ -26,7 +26,8 @@ pub(crate) fn tuple(attr: &StructAttr, ts_name: Expr, fields: &FieldsUnnamed) ->
         inline: quote! {
             format!(
                 "[{}]",
-                [#(#formatted_fields),*].join(", ")
+                // (the element type has to be spelled out: every field may be skipped)
+                <[String]>::join(&[#(#formatted_fields),*], ", ")
             )
         },
         inline_flattened: None,
